@@ -18,6 +18,8 @@ CONSTANTS
   MaxEvents,   \* 0..2 event cells per security
   DistGrid,    \* granularity with which an event amount may be spread over acquisition days
   MaxCells,    \* at most this many non-empty buy/sell cells per security (0 = unlimited)
+  CoveredOnly, \* TRUE: the generator only proposes sales the holding covers (used by the random-walk tier,
+               \* where unconstrained ledgers almost always fail at their first sale)
   Emit         \* TRUE: print a REPLAY line for every terminated behaviour
 
 \* second security gets shifted prices
@@ -85,6 +87,7 @@ GenCell ==
            cell == [c1 EXCEPT !.split = c0.split, !.ac = c0.ac, !.cr = c0.cr, !.crf = c0.crf]
            used == NonEmptyCount(s) + (IF b.bq # 0 THEN 1 ELSE 0) + (IF b.sq # 0 THEN 1 ELSE 0)
        IN /\ MaxCells = 0 \/ used <= MaxCells
+          /\ CoveredOnly => Le(cell.sq, Add(IF timing = "start" THEN Mul(HeldStart(s, day), c0.split) ELSE HeldStart(s, day), cell.bq))
           /\ L' = [L EXCEPT ![s][day] = cell]
   /\ LET nx == GenSlotNext
      IN IF nx[1] > MC_N
